@@ -177,6 +177,14 @@ add("C04", "model_checking",
     "populations are two household sets.",
     "exhaustive enumeration of target-set families per node x options with a differential oracle", "2/C04")
 
+add("C05", "model_checking",
+    "Per (population, date) and for EVERY node n of the default-target graph: a second simulation supplies column n with exactly the values the "
+    "system computed, requests all other nodes, and replaces rule n by a tripwire function that raises if it is evaluated. All other nodes must be "
+    "bit-identical (value and dtype), the tripwire must never fire (the supplied column is used in place of the computation), and the "
+    "FunctionsAndColumnsOverlapWarning must name n whenever n is a policy rule, a grouping or a specified aggregation.",
+    "Populations are two household sets; supplied values are the computed ones (the 'if its values equal' case of the property).",
+    "exhaustive enumeration of single-node overrides with a differential oracle and a tripwire observer", "2/C05")
+
 NOT_APPLICABLE = []
 
 
